@@ -20,7 +20,12 @@ Several workers (completion order lifo / fifo / seeded random, identical in both
   with the ordinals of their streams (so a re-issued job still in flight is recorded again, with the same ordinal);
   the whole chain run twice is byte-identical.
 Model side: repex_tie.run_history (real REPEX_state, scripted outcomes) with the same (n, W, restart chain) shapes
-against the Lean driver.
+against the Lean driver; on the same real objects the hypotheses/conclusions of the several-workers theorems
+(Props/C06 10-18: RestoreRelM, StopM, reissue_in_place) are evaluated at every restart: what load_paths rebuilds has the
+slots of the stop, all free; after the re-issues the sampler is the stopped one (W, slot order, locks, locked with
+ordinals, counters, entropy, spawn counter, fractions) and the jobs are those that were in flight.
+Determinism beyond "twice": a straight run and a split run in brand-new interpreters under fixed, different
+PYTHONHASHSEED values, in other (deeper) working directories and other pids, must write the reference's bytes.
 """
 from __future__ import annotations
 
@@ -230,7 +235,8 @@ def check_w1(ctx, fam, ref, d, kind, chain, res):
         return False
     sig = None
     what = ""
-    if kind not in ("twice", "one-process-first-run", "one-process-second-run"):
+    straight = kind in ("twice", "one-process-first-run", "one-process-second-run") or kind.startswith("twice-hashseed")
+    if not straight:
         a, b = effective_submits(read_log(ref)), effective_submits(read_log(d))
         ka, kb = [job_key(s) for s in a], [job_key(s) for s in b]
         if ka != kb:
@@ -251,11 +257,12 @@ def check_w1(ctx, fam, ref, d, kind, chain, res):
             else:
                 sig, what = "C06:restart:job-streams-differ", f"job {i}: {y} vs {x}"
             rep["first_differing_job"] = i
-    diff = compare_dirs(ref, d, same_path_set=not fam["delete_old"], exact_orderp=(fam["engine"] == "lattice" or kind in ("twice", "one-process-first-run", "one-process-second-run")))
+    diff = compare_dirs(ref, d, same_path_set=not fam["delete_old"], exact_orderp=(fam["engine"] == "lattice" or straight))
     if diff is not None:
         rep["first_difference"] = diff
         if sig is None:
             sig = ("C06:determinism:two-runs-differ" if kind == "twice" else
+                   "C06:determinism:run-depends-on-hash-seed-cwd-or-pid" if "hashseed" in kind else
                    "C06:determinism:run-depends-on-process-state" if kind.startswith("one-process") else
                    "C06:restart:files-differ")
         what = (what + "; " if what else "") + f"{diff['file']} line {diff['line']}: {diff['other']!r} vs {diff['ref']!r}"
@@ -512,7 +519,7 @@ def crash_points(ctx, fam, kinds):
 
 # ----------------------------------------------------------------------------- the run
 def run_w1_families(ctx, pool, base, fams, all_splits=True, chains=None, every=True, fresh_one=True, crashes=None,
-                    one_process=()):
+                    one_process=(), hashseeds=None):
     """phase 1 (independent runs) + phase 2 (runs that start from the snapshots of the reference)"""
     p1, p2, checks = [], [], []
     for fi, fam in enumerate(fams):
@@ -571,6 +578,26 @@ def run_w1_families(ctx, pool, base, fams, all_splits=True, chains=None, every=T
             d = os.path.join(fb, "FR")
             p1.append({"name": f"{fi}:FR", "ops": steps_chain_ops(d, fam, (k,), fresh=True)})
             checks.append((fam, ref, d, "steps-split-new-interpreter", (k,), len(p1) - 1, 1))
+        if hashseeds and fi in hashseeds:
+            # sources of run-to-run variation outside the seed: string-hash randomisation (iteration order of sets and
+            # of dicts keyed by str), the working directory, the pid — a straight run and a split run in brand-new
+            # interpreters with PYTHONHASHSEED fixed to different values, each in a directory of its own
+            for hs in hashseeds[fi]:
+                d = os.path.join(fb, f"H{hs}", "deeper", "dir")
+                p1.append({"name": f"{fi}:H{hs}", "ops": [
+                    {"op": "prepare", "dir": d, "engine": fam["engine"], "cfg": fam_cfg(fam)},
+                    {"op": "leg", "dir": d, "input": "infretis.toml", "leg": 0, "fresh": True, "hashseed": hs}]})
+                checks.append((fam, ref, d, f"twice-hashseed-{hs}", (), len(p1) - 1, 1))
+            if N >= 3:
+                hs = hashseeds[fi][-1]
+                k = N // 2
+                d = os.path.join(fb, f"HS{hs}")
+                ops = steps_chain_ops(d, fam, (k,), fresh=True)
+                for j, o in enumerate(ops):
+                    if o["op"] == "leg":
+                        o["hashseed"] = hs + j
+                p1.append({"name": f"{fi}:HS{hs}", "ops": ops})
+                checks.append((fam, ref, d, f"steps-split-hashseed-{hs}", (k,), len(p1) - 1, 1))
     # heavier scenarios first
     r1 = pool.map(p1)
     # stops at the effect boundaries inside treat_output (data rows appended / restart file replaced / torn last row):
@@ -762,6 +789,80 @@ def run_multi(ctx, pool, base, multi):
                     res[2 * i], res[2 * i + 1])
 
 
+def _frac_map(txt):
+    out = {}
+    for part in (txt or "").split(";"):
+        if part:
+            k, v = part.split(":", 1)
+            out[k] = [float(x) for x in v.split(",") if x != ""]
+    return out
+
+
+def _frac_same(a, b):
+    """fractions as finite maps; the restart file holds them as decimal strings of long doubles, so a reloaded value
+    may differ from the in-memory one in the last place of a double: compared to 1e-9 relative (as repex_tie does)"""
+    fa, fb = _frac_map(a), _frac_map(b)
+    if set(fa) != set(fb):
+        return False
+    for k in fa:
+        if len(fa[k]) != len(fb[k]):
+            return False
+        for x, y in zip(fa[k], fb[k]):
+            if abs(x - y) > 1e-9 * max(1.0, abs(x), abs(y)):
+                return False
+    return True
+
+
+def reissue_in_place(ctx, prev, sm, W, steps, label, rep):
+    snaps_prev, snaps = getattr(prev, "snaps", None) or [], getattr(sm, "snaps", None) or []
+    if not snaps_prev or snaps_prev[-1][0] != "treat" or prev.error is not None:
+        return
+    d0 = snaps_prev[-1][1]
+    img = prev.image or {}
+    nrec = len(img.get("locked", []))
+    m = min(nrec, W, steps - int(img.get("cstep", 0)))
+    loaded = [x for x in snaps if x[0] == "loaded"]
+    preps = [x for x in snaps if x[0] == "prep"]
+    if not loaded or not isinstance(d0, dict) or not isinstance(loaded[0][1], dict):
+        return
+    dl = loaded[0][1]
+    ctx.count(1, kind="restore-slots", workers=W, records=("0" if nrec == 0 else "1" if nrec == 1 else ">1"))
+    n = len(dl["locks"])
+    for key in ("W", "trajs"):
+        if dl[key] != d0[key]:
+            ctx.fail("C06:restore:slots-differ-from-stop", f"{label}: after load_paths from the restart file `{key}` is "
+                     f"{dl[key]!r}, at the stop it was {d0[key]!r}", rep)
+            return
+    if dl["locks"] != "0" * (n - 1) + "1" or dl["locked"] != "":
+        ctx.fail("C06:restore:slots-not-free-after-load", f"{label}: locks {dl['locks']!r} locked {dl['locked']!r} after load_paths",
+                 rep)
+        return
+    if not _frac_same(dl["frac"], d0["frac"]):
+        ctx.fail("C06:restore:fractions-differ-from-stop", f"{label}: {dl['frac']!r} vs {d0['frac']!r}", rep)
+        return
+    if m != nrec or m == 0 or len(preps) < m or not isinstance(preps[m - 1][1], dict):
+        return
+    dr = preps[m - 1][1]
+    ctx.count(1, kind="reissue-in-place", workers=W, records=("1" if nrec == 1 else ">1"))
+    for key in ("W", "trajs", "locks", "locked", "lockedord", "cstep", "trajnum"):
+        if dr[key] != d0[key]:
+            ctx.fail("C06:reissue:not-in-place", f"{label}: after the {m} re-issues `{key}` is {dr[key]!r}, at the stop it was "
+                     f"{d0[key]!r}", rep)
+            return
+    if dr["rng"].split(":")[:2] != d0["rng"].split(":")[:2]:
+        ctx.fail("C06:reissue:spawn-counter-or-entropy-moved", f"{label}: entropy:spawned {dr['rng']} after the re-issues, "
+                 f"{d0['rng']} at the stop", rep)
+        return
+    if not _frac_same(dr["frac"], d0["frac"]):
+        ctx.fail("C06:reissue:not-in-place", f"{label}: fractions {dr['frac']!r} vs {d0['frac']!r}", rep)
+        return
+    want = [[(int(e), int(dd["pn_old"])) for e, dd in md["picked"].items()] for md in (prev.inflight_end or [])]
+    got = [[(int(e), int(pn)) for e, pn in h[1]] for h in preps[m - 1][2]]
+    if want != got:
+        ctx.fail("C06:reissue:jobs-differ-from-in-flight", f"{label}: jobs after the re-issues {got}, in flight at the stop {want}",
+                 rep)
+
+
 def model_side(ctx, shapes):
     """real REPEX_state with scripted outcomes vs the Lean state machine, same (n, W, restart chain) shapes"""
     outs = []
@@ -786,6 +887,14 @@ def model_side(ctx, shapes):
                     got = ([int(p.split("/")[0]) for p in pk], [int(p.split("/")[1]) for p in pk])
                 if got != want:
                     ctx.fail("C06:reissue:jobs-differ-from-recorded", f"{label}: job {i} after a restart is {got}, recorded {want}",
+                             {"kind": "model-shape", "params": [n_ens, W, steps, seed, wf, list(restarts)], "ctxseed": ctx.seed})
+        # `reissue_in_place` / `RestoreRelM` / `StopM` (Props/C06 10, 11) judged on the real REPEX_state: what the restart
+        # rebuilds has the slots of the stop (same W rows, same path per slot, everything unlocked but the ghost), and once
+        # the initiation loop has re-issued the whole record the sampler is the stopped one again: W, slot order, locks,
+        # `locked` with the same ordinals, counters, entropy and spawn counter, fractions — and the jobs handed out are the
+        # jobs that were in flight, in order.
+        for prev, sm in zip(chain, chain[1:]):
+            reissue_in_place(ctx, prev, sm, W, steps, label,
                              {"kind": "model-shape", "params": [n_ens, W, steps, seed, wf, list(restarts)], "ctxseed": ctx.seed})
         ctx.count(1, kind="model-shape", workers=W, restarts=len(restarts))
     if ctx._driver_ok:
@@ -815,7 +924,9 @@ def run(ctx):
         good, total = run_w1_families(ctx, pool, os.path.join(base, "w1"), fams, all_splits=True,
                                       chains=lambda fam: chains_for(ctx, fam["N"]),
                                       every=True, crashes=lambda fam, kinds: crash_points(ctx, fam, kinds),
-                                      one_process=(0, len(fams) - 1))
+                                      one_process=(0, len(fams) - 1),
+                                      hashseeds={0: (1, 4242), len(fams) - 1: (7, 90001)} if len(fams) > 1
+                                      else {0: (1, 4242)})
         ctx.extra["one_worker_runs_identical"] = f"{good}/{total}"
         ctx.extra["turtle_maxop_last_digit_lines_forgiven"] = ROUNDED["lines"]
         run_multi(ctx, pool, os.path.join(base, "multi"), multi)
@@ -867,6 +978,11 @@ def run(ctx):
         "enginebase.counter, tis.ENGINES, logging handlers); one scenario per run uses brand-new interpreters instead",
         "logging disabled and os.fsync made a no-op inside the legs (speed; neither influences what is written)",
         "bit-for-bit behaviour of numpy / TurtleMD is not modelled: they are run twice",
+        "sources of variation outside the seed that are exercised: string-hash seed (PYTHONHASHSEED 1 / 4242 / 7 / 90001 in "
+        "brand-new interpreters; the pool's own processes run with Python's random hash seed), working directory (every run "
+        "in a directory of its own, the hash-seed runs three levels deeper), pid; wall-clock time is not manipulated",
+        "reissue-in-place predicate: fractions before the stop and after the reload are compared to 1e-9 relative (the restart "
+        "file holds them as decimal strings of long doubles); W, slot order, locks, records, ordinals, counters exactly",
         "several workers: the synchronous runner executes a job at submission and completes them in a scripted order",
     ]
 
@@ -888,7 +1004,11 @@ def replay(ctx, obj):
             if r.get("workers", 1) == 1:
                 chain = tuple(r.get("chain", ()))
                 kind = r.get("kind", "steps-split")
-                if kind.startswith("crash-"):
+                mh = re.search(r"hashseed-(\d+)", kind)
+                if mh:
+                    run_w1_families(ctx, pool, base, [fam], all_splits=[], chains=[], every=False, fresh_one=False,
+                                    hashseeds={0: (int(mh.group(1)),)})
+                elif kind.startswith("crash-"):
                     run_w1_families(ctx, pool, base, [fam], all_splits=[], chains=[], every=False, fresh_one=False,
                                     crashes=[(chain[0], kind[len("crash-"):])])
                 elif kind == "twice" or not chain:
